@@ -1203,6 +1203,16 @@ fn victim_schedule(rng: &mut Rng, mode: &str) -> Value {
     }
 }
 
+/// `n` bytes (about) of padding text; half of the time with 2- and 3-byte characters throughout, so that any fixed byte
+/// offset (a buffer boundary) is likely to fall inside a character
+fn pad_text(rng: &mut Rng, n: usize) -> String {
+    if rng.chance(1, 2) {
+        "p".repeat(n)
+    } else {
+        "\u{e9}\u{65e5}p".repeat(n / 6 + 1)
+    }
+}
+
 fn victim_write(rng: &mut Rng, keyed: bool, vi: usize, len: u64, ki: usize) -> Value {
     let entry = *rng.pick(&["write", "write", "opts", "opts", "create", "write_algo"]);
     let entry = if !keyed && entry == "create" { "opts" } else { entry };
@@ -1349,7 +1359,7 @@ fn gen_c04(rng: &mut Rng, r: u64) -> Value {
         let n = if pad >= 5000 { rng.range(2, 5) } else { rng.range(8, 30) };
         let fp = *rng.pick(&PURE);
         for i in 0..n {
-            prelude.push(json!({"k":"api","op":"write","entry":"opts","key":0,"val":1,"opts":{"time":(10 + i).to_string(),"meta":{"pad":"p".repeat(pad)}},"bin":fp.0,"mode":fp.1}));
+            prelude.push(json!({"k":"api","op":"write","entry":"opts","key":0,"val":1,"opts":{"time":(10 + i).to_string(),"meta":{"pad":pad_text(rng, pad)}},"bin":fp.0,"mode":fp.1}));
         }
     }
     let mut v = match rng.below(6) {
@@ -1394,7 +1404,7 @@ fn gen_c13(rng: &mut Rng, r: u64) -> Value {
     // a bucket larger than one 8 KiB reader buffer: many rewrites with bulky metadata
     if rng.chance(1, 4) {
         for i in 0..30 {
-            prelude.push(json!({"k":"api","op":"write","entry":"opts","key":0,"val":0,"opts":{"time":i.to_string(),"meta":{"pad":"x".repeat(280)}},"bin":"sync","mode":"sync"}));
+            prelude.push(json!({"k":"api","op":"write","entry":"opts","key":0,"val":0,"opts":{"time":i.to_string(),"meta":{"pad":pad_text(rng, 280)}},"bin":"sync","mode":"sync"}));
         }
     }
     let victim = match r / 5 % 15 {
@@ -1542,7 +1552,7 @@ fn gen_c07(rng: &mut Rng, r: u64, tier: &str) -> Value {
         let n = rng.range(lo, hi);
         let fp = *rng.pick(&PURE);
         for i in 0..n {
-            prelude.push(json!({"k":"api","op":"write","entry":"opts","key":0,"val":2,"opts":{"time":(10 + i).to_string(),"meta":{"pad":"p".repeat(pad)}},"bin":fp.0,"mode":fp.1}));
+            prelude.push(json!({"k":"api","op":"write","entry":"opts","key":0,"val":2,"opts":{"time":(10 + i).to_string(),"meta":{"pad":pad_text(rng, pad)}},"bin":fp.0,"mode":fp.1}));
         }
     }
     let nclients = if !bulky && rng.chance(1, 4) { 3 } else { 2 };
@@ -1560,7 +1570,8 @@ fn gen_c07(rng: &mut Rng, r: u64, tier: &str) -> Value {
                     w["opts"] = json!({"time": (100 + ci).to_string(), "meta": {"by": ci}});
                     if rng.chance(1, 4) {
                         // one record larger than a page / than the usual 8 KiB and 64 KiB buffers
-                        w["opts"]["meta"]["pad"] = json!("m".repeat(*rng.pick(&[5000usize, 9000, 20000, 70000])));
+                        let n = *rng.pick(&[5000usize, 9000, 20000, 70000]);
+                        w["opts"]["meta"]["pad"] = json!(pad_text(rng, n));
                     }
                 }
                 w
